@@ -51,21 +51,23 @@ TEXT = {
 TECH_ADD = {
  "C01": "loop-carried-value classification of the writer loops (per-cue independence); emit-dominates-back-edge rule; fixed-radix argument rule; loop-nesting rule for the trailing-blank-line removal at both cue-completion points",
  "C02": "loop-carried-value classification of the writer loops; dominator must-pass-through of the open-tag stack read before every item addition; emit-dominates-back-edge rule; fixed-radix argument rule",
- "C03": "value-origin analysis of the language field against the language table; abstract interpretation of float exactness (INT/QUOT/BAD) at every truncation and quotient-before-scale rule; per-cue independence; emit-dominates-back-edge; fixed radix",
+ "C03": "value-origin analysis of the language field against the language table; abstract interpretation of float exactness (INT/QUOT/BAD) at every truncation and quotient-before-scale rule; per-cue independence; emit-dominates-back-edge; fixed radix; own-identifier rule on the map stores of the reader (definition tables keyed by the element's ID)",
  "C04": "reference set of recognised section spellings (switch and EqualFold forms); fixed-radix argument rule with constant propagation through parameters and phis; per-cue independence; emit-dominates-back-edge",
  "C05": "exit-edge classification of the block-reading loop; fixed points of the writer tables under the normal form read from the call (evaluated with /repo's x/text); language value origins; rounding-direction extraction of the frame conversions against the frame-rate table; dominance of the frame-rate table lookup over the GSI store; start-box code agreement reader/writer; offset add/subtract symmetry; per-cue independence; emit-dominates-back-edge; fixed radix",
  "C06": "evaluation of the (G0 position ← sub-set index) pairs installed by updateCharset (indexed loop through a constant array, or constant-bounded copies) against ETS 300 706 table 36",
  "C07": "extraction of the orderings against zero under which the CLI ends in log.Fatal (through helper functions) compared with what each operation may refuse; emit-dominates-back-edge over the five writers; GSI frame-rate validation; STL start-box agreement",
- "C09": "CLI guard orderings for -s",
- "C10": "CLI guard orderings for -f",
+ "C09": "CLI guard orderings for -s; comparison-shape rule: every comparison of a cue boundary in Add is against the constant 0 (EndAt with <=)",
+ "C10": "CLI guard orderings for -f; sweep rules on Fragment: bound is a maximum accumulated over all cues, window phis advance by exactly f, no store to a slice inside a range over it",
  "C14": "constant sources of the cut index against its guard; CFG reachability of the filler from the cut and freshness of the Duration() test",
  "C15": "magnitude (interval) analysis of integer products over the 24 h domain; call isomorphism for helper closures; CLI guard orderings",
  "C16": "abstract interpretation of float exactness at every truncation; quotient-before-scale rule; rounding-direction agreement of the STL frame conversions",
+ "C11": "guard relations followed through short-circuit phis; absence of the String() equality is a violation",
+ "C18": "zero-rule with positive control: end-of-input sentinels (io.EOF, ErrNoMorePackets) are only ever compared, never stored or returned",
 }
 TEXT_ADD = {
  "C01": " Added: nothing computed for one cue is carried into the next by the writer; every loop of the writer emits for every element; integer fields are read in base 10; trailing blank lines are stripped iteratively at the next cue and at end of source.",
  "C02": " Added: nothing computed for one cue is carried into the next by the writer; no line item is created without reading the open-tag stack; every writer loop emits for every element.",
- "C03": " Added: the language written / read comes only from the language table; no truncation of an inexact float product, no integer quotient scaled afterwards (tick, frame and offset-time conversions); writer emits every style/region/cue.",
+ "C03": " Added: the language written / read comes only from the language table; no truncation of an inexact float product, no integer quotient scaled afterwards (tick, frame and offset-time conversions); writer emits every style/region/cue. Style and region tables are keyed by the element's own ID (shared parents keep all their children).",
  "C04": " Added: the reader still recognises the five section spellings; integer fields are read in base 10 (16 for colours).",
  "C05": " Added: the TTI loop ends only on end of source or error; writer table keys are fixed points of the applied normal form; GSI frame rate is a rate of the table; timecode offsets are applied symmetrically; frame rounding directions compose to the identity; start-box agreement (one more known finding).",
  "C06": " Added: the 13 national option characters are installed at the positions of ETS 300 706 table 36.",
@@ -73,6 +75,10 @@ TEXT_ADD = {
  "C14": " Added: the not-found value of the cut index is not a possible index; the filler decision is reachable after the cut and uses a duration evaluated after it.",
  "C15": " Added: no integer product can overflow for instants within 24 h.",
  "C16": " Added: truncations act on exact integers or single correctly rounded quotients; STL reader and writer rounding directions compose to the identity for the table's frame rates.",
+ "C09": " Added: removal and clamping are decided against the origin only (EndAt <= 0, StartAt vs 0).",
+ "C10": " Added: the window sweep runs to the maximum end over all cues, advances by exactly f, and never inserts into a slice being ranged over (two genuine defects repaired).",
+ "C11": " Added: the merge relation is also extracted when && is compiled to a phi; sameness must be an equality of Item.String() results.",
+ "C18": " Added: no function manufactures an end-of-input sentinel (a failure cannot be turned into a clean end).",
 }
 for k, v in TECH_ADD.items():
     TECH[k] += "; " + v
